@@ -131,7 +131,13 @@ AdobePar == [lin |-> FALSE, slope |-> Rat(1, 1), knee |-> RatZero, a |-> RatZero
 P3Par == [lin |-> FALSE, slope |-> Rat(1, 1), knee |-> RatZero, a |-> RatZero, b |-> Rat(1, 1), p |-> 13, q |-> 5]
 ProPhotoPar == [lin |-> TRUE, slope |-> Rat(16, 1), knee |-> Rat(1, 32), a |-> RatZero, b |-> Rat(1, 1), p |-> 9, q |-> 5]
 
-Curves == {"srgb", "rec_oetf", "adobe", "p3", "prophoto", "linear"}
+(* GammaFn<F2p2>: a pure power law with the exponent 2.2.  The documentation gives V^2.2 as the ENCODING and also calls
+   the curve an approximation of sRGB (which is V^(1/2.2)); both readings are admissible parameter sets, what is
+   decided is that the two directions are a power law with that exponent, mutually inverse and monotone *)
+GammaDocPar == [lin |-> FALSE, slope |-> Rat(1, 1), knee |-> RatZero, a |-> RatZero, b |-> Rat(1, 1), p |-> 5, q |-> 11]
+GammaConvPar == [lin |-> FALSE, slope |-> Rat(1, 1), knee |-> RatZero, a |-> RatZero, b |-> Rat(1, 1), p |-> 11, q |-> 5]
+
+Curves == {"srgb", "rec_oetf", "adobe", "p3", "prophoto", "linear", "gamma"}
 (* the admissible published parameter sets of a curve, tried in this order (sRGB: rounded or continuous; Rec: exact
    or three-digit constants) *)
 Pars(curve) == CASE curve = "srgb" -> <<SrgbPar, SrgbParC>>
@@ -139,6 +145,7 @@ Pars(curve) == CASE curve = "srgb" -> <<SrgbPar, SrgbParC>>
                  [] curve = "adobe" -> <<AdobePar>>
                  [] curve = "p3" -> <<P3Par>>
                  [] curve = "prophoto" -> <<ProPhotoPar>>
+                 [] curve = "gamma" -> <<GammaDocPar, GammaConvPar>>
                  [] OTHER -> <<>>
 ParSet(curve) == {Pars(curve)[i] : i \in DOMAIN Pars(curve)}
 
